@@ -14,17 +14,17 @@ Alphabet
   Every layer that is set gets its own value (layer index + 1), so the observed value names the winning layer.
   An independent key y is written at one rotating layer (value 100 + index).
 Bound
-  ALL subsets of the layers (2^13 for kernels and 2^8 for the device in both tiers, 2^13 for memories and streams in the
-  thorough tier / all subsets of size <= 3 in the quick tier), both device modes; all subsets of size
+  ALL subsets of the layers: thorough = 2^13 per object kind and device mode, 2^8 for the device; quick = 2^13 for kernels
+  of a Serial device, 2^8 for the device in both modes, all subsets of size <= 3 for the rest; all subsets of size
   <= 2 again with the mode selected by a differently spelled name (mode names are matched case-insensitively) and by an
   unavailable mode name (documented fall-back to Serial); for the key defines/VX all subsets of size <= 2 (thorough:
   <= 3, both modes) are additionally compiled into a kernel that echoes the macro.
 Oracle (the property sentence, nothing more)
   candidates = layers that are set and are generic or belong to the device's own mode (device.mode());
-  A dominates B  iff  A is at least as specific (own-mode >= generic) and at least as user-supplied (device / per-call
-  properties >= global settings) as B, and strictly more in one of the two.  The sentence orders nothing else: the two
-  spellings of an own-mode entry, device vs per-call properties, "settings own-mode" vs "user generic" are NOT ordered,
-  any of them may win.
+  A dominates B  iff  both are in the same property set and A is the own-mode entry, B the generic one;  or A is
+  user-supplied (device or per-call properties), B is a settings entry and A is at least as specific.  The sentence orders
+  nothing else: the two spellings of an own-mode entry, device properties vs per-call properties, "settings own-mode" vs
+  "user generic" are NOT ordered, any of them may win.
   - the observed value of x is the value of a non-dominated candidate; x is absent iff there is no candidate
     (this includes: a value written only under the other mode never shows up)
   - y is resolved the same way from its own single layer, whatever the x layers are
@@ -109,9 +109,14 @@ def get_path(tree, path):
 
 
 def dominates(a, b):
-    """a dominates b (see module docstring).  user-supplied rank: settings 0, device/per-call props 1."""
-    ua, ub = (0 if a.src == SETTINGS else 1), (0 if b.src == SETTINGS else 1)
-    return a.spec >= b.spec and ua >= ub and (a.spec > b.spec or ua > ub)
+    """a dominates b (see module docstring): inside one property set the own-mode entry beats the generic one; a user-supplied
+    entry (device or per-call properties) beats a settings entry that is not more specific.  Device properties and per-call
+    properties are two different user-supplied sets: the sentence does not order them."""
+    if a.src == b.src:
+        return a.spec > b.spec
+    if a.src != SETTINGS and b.src == SETTINGS:
+        return a.spec >= b.spec
+    return False
 
 
 def expected(layers, chosen, sources):
@@ -183,6 +188,7 @@ def observations(item):
         obs.append((t + "O", "", (SETTINGS, DEVICE, CALL), "created-%s.properties" % o))
     if "k" in item.flags and o == "kernel":
         obs.append(("KO", "", (SETTINGS, DEVICE, CALL), "built-kernel.properties"))
+        obs.append(("KB", "", (SETTINGS, DEVICE, CALL), "kernel-from-binary.properties"))
     return obs
 
 
@@ -272,9 +278,10 @@ def gen_items(tier, have_openmp):
         for obj in ("device", "kernel", "memory", "stream"):
             n = len(layers_for(obj, M, N, "vx"))
             cnt = 0
-            # the three object kinds run through the same code with a different object name: the quick tier explores the
-            # full power set for the device and for kernels and all subsets of size <= 3 for memories and streams
-            top = n if (tier == "thorough" or obj in ("device", "kernel")) else 3
+            # the three object kinds and the two modes run through the same code with a different object / mode name: the
+            # quick tier explores the full power set for the device (both modes) and for kernels of a Serial device, and all
+            # subsets of size <= 3 for the rest; the thorough tier explores every power set
+            top = n if (tier == "thorough" or obj == "device" or (obj == "kernel" and M == "Serial")) else 3
             for size in range(0, top + 1):
                 for sub in itertools.combinations(range(n), size):
                     items.append(Item(obj, M, M, N, sub, cnt % n))
@@ -313,7 +320,7 @@ def run(c, exe, items, env, deadline):
     jit = [i for i, it in enumerate(items) if "k" in it.flags]
     results = {}
     complete = True
-    for idxs, chunk, tmo, name in ((plain, 700, 0.5, "plain"), (jit, 6, 30.0, "jit")):
+    for idxs, chunk, tmo, name in ((plain, 700, 1.0, "plain"), (jit, 6, 100.0, "jit")):
         if not idxs:
             continue
         res, ok = run_items([exe], [lines[i] for i in idxs], os.path.join(c.scratch, name), env, chunk=chunk,
@@ -321,6 +328,10 @@ def run(c, exe, items, env, deadline):
         complete = complete and ok
         for r in res:
             results[idxs[r.index]] = r
+            if r.crash == "timeout":
+                # not a verdict on a loaded machine: once more on its own with a much larger limit
+                r2, _ = run_items([exe], [lines[idxs[r.index]]], os.path.join(c.scratch, name + "-retry"), env, chunk=1, per_item_timeout=900.0)
+                results[idxs[r.index]] = r2[0]
     return results, complete
 
 
@@ -350,11 +361,13 @@ def main():
 
     # is OpenMP available in this build?
     probe = Item("device", "OpenMP", "OpenMP", "Serial", (), None)
-    res, _ = run_items([exe], [probe.line()], os.path.join(c.scratch, "probe"), env, per_item_timeout=60.0)
+    res, _ = run_items([exe], [probe.line()], os.path.join(c.scratch, "probe"), env, per_item_timeout=900.0)
+    if res[0].crash or not any(ln.startswith("MODE ") for ln in res[0].lines):
+        c.harness_error("the OpenMP probe did not answer: %s %r" % (res[0].crash, res[0].lines[:3]))
     have_openmp = any(ln == "MODE OpenMP" for ln in res[0].lines)
 
     items, n_plain = gen_items(c.tier, have_openmp)
-    deadline = time.time() + c.budget(75, 1100)     # measured from the end of the build + harness compile
+    deadline = time.time() + c.budget(75, 1100) * float(os.environ.get("VERIF_BUDGET_SCALE", "1"))   # from the end of the build + harness compile; the scale is for loaded machines
     results, complete = run(c, exe, items, env, deadline)
 
     outcomes = set()
